@@ -38,6 +38,8 @@ type PropSpec struct {
 	Assumptions []string          `json:"assumptions"`
 	Blackhole   []string          `json:"blackhole,omitempty"`
 	NeedsShim   bool              `json:"needs_shim,omitempty"`
+	Redirects   map[string]string `json:"redirects,omitempty"` // callee full name -> "pkgpath.Func" of the model
+	InitAllow   []string          `json:"init_allow,omitempty"`
 }
 
 type KnownFinding struct {
@@ -301,6 +303,30 @@ func cmdCheck(args []string) {
 		defer nb.cleanup()
 	}
 	known := loadKnown()
+	redirects := map[string]*ssa.Function{}
+	if len(spec.Redirects) > 0 {
+		all := map[string]*ssa.Function{}
+		for f := range ssautilAllFunctions(prog) {
+			all[f.String()] = f
+		}
+		for from, to := range spec.Redirects {
+			target := all[to]
+			if _, ok := all[from]; !ok {
+				// a rename in the tree must not silently disable a stub
+				msg := fmt.Sprintf("redirect source %s matches nothing in the current tree", from)
+				fmt.Println("INCONCLUSIVE:", msg)
+				evidenceInconclusive = append(evidenceInconclusive, msg)
+				continue
+			}
+			if target == nil {
+				msg := fmt.Sprintf("redirect target %s not found", to)
+				fmt.Println("INCONCLUSIVE:", msg)
+				evidenceInconclusive = append(evidenceInconclusive, msg)
+				continue
+			}
+			redirects[from] = target
+		}
+	}
 	var reports []*entryReport
 	functions := map[string]int64{}
 	var samples []interface{}
@@ -330,6 +356,8 @@ func cmdCheck(args []string) {
 			cfg.Workers = *workers
 		}
 		cfg.Blackhole = append(cfg.Blackhole, spec.Blackhole...)
+		cfg.InitAllow = append(cfg.InitAllow, spec.InitAllow...)
+		cfg.Redirects = redirects
 		cfg.Params = params
 		cfg.MaxPaths = e.MaxPaths
 		cfg.SampleModels = 3
@@ -404,6 +432,8 @@ func cmdCheck(args []string) {
 				ccfg := baseConfig()
 				ccfg.Workers = 1
 				ccfg.Blackhole = cfg.Blackhole
+				ccfg.InitAllow = cfg.InitAllow
+				ccfg.Redirects = redirects
 				ccfg.Params = params
 				ccfg.Concrete = conc
 				csum := Explore(prog, fn, ccfg)
